@@ -4,7 +4,7 @@
    The harness (harness/krylov.py) runs the real LanczosGroundState / LanczosEvolution under
    run-time interposition (KrylovBased._to_cache, .iscale_prefactor, .iadd_prefactor_other,
    H.matvec, Array.__mul__ for `psi0 * vf[0]`, _build_krylov, _rebuild_krylov_for_result_full,
-   run) and writes one JSON line per run: [tid |-> n, ev |-> <<event, ...>>], every event being
+   run; the Unshift event is derived from the returned energy: Ritz value of H + E_shift minus E_shift) and writes one JSON line per run: [tid |-> n, ev |-> <<event, ...>>], every event being
    exactly the `last` record of the corresponding action of Krylov.tla (objects are numbered in
    the order of their first appearance, which is the allocation order of the spec's heap).
    A run is accepted iff its events are, one by one, the `last` records along a behaviour of
@@ -29,7 +29,7 @@ Step(A) == /\ pc \notin {"accepted", "rejected"}
            /\ last' = Cur
            /\ l' = l + 1 /\ tid' = tid
 
-TrStart    == Step(Cur.op = "Start" /\ Start(Cur.Nmax, Cur.Ncache, Cur.Nmin, Cur.reortho, Cur.m, Cur.conv))
+TrStart    == Step(Cur.op = "Start" /\ Start(Cur.Nmax, Cur.Ncache, Cur.Nmin, Cur.reortho, Cur.m, Cur.conv, Cur.shift))
 TrBScale   == Step(BScale)
 TrBCache   == Step(BCache)
 TrBMatvec  == Step(BMatvec)
@@ -38,6 +38,7 @@ TrBReortho == Step(BReortho)
 TrBBeta    == Step(BBeta)
 TrBBreak   == Step(BBreak)
 TrBNext    == Step(BNext)
+TrRUnshift == Step(RUnshift)
 TrRReturn1 == Step(RReturn1)
 TrRMul     == Step(RMul)
 TrRCached  == Step(RCached)
@@ -53,7 +54,7 @@ TrRNorm    == Step(RNorm)
 TrRReturn  == Step(RReturn)
 
 TraceSteps == \/ TrStart \/ TrBScale \/ TrBCache \/ TrBMatvec \/ TrBAlpha \/ TrBReortho \/ TrBBeta
-              \/ TrBBreak \/ TrBNext \/ TrRReturn1 \/ TrRMul \/ TrRCached \/ TrRClear
+              \/ TrBBreak \/ TrBNext \/ TrRUnshift \/ TrRReturn1 \/ TrRMul \/ TrRCached \/ TrRClear
               \/ TrQCache \/ TrQMatvec \/ TrQAlpha \/ TrQReortho \/ TrQBeta \/ TrQScale \/ TrQAdd
               \/ TrRNorm \/ TrRReturn
 
